@@ -25,7 +25,7 @@ func init() {
 	engines["C06"] = c06Engine{}
 	evidenceInfo["C06"] = evInfo{
 		rule: "one evaluation = one project observed under R=3..5 environments (rep 0 canonical; others: map order permuted at all / a random subset of the 21 instrumented map-range sites, reversed order, " +
-			"0-2 unrelated prior builds in the process, one repetition in a fresh OS process, pool policy, ambient seed). Projects: generator (valid), generator + 2..4 independent defect blocks of 20 kinds, " +
+			"0-2 unrelated prior builds in the process, one repetition in a fresh OS process, pool policy, ambient seed). Projects: generator (valid), generator + 2..4 independent defect blocks of 23 kinds, " +
 			"corpus files accepted and rejected, valid projects with 1-3 stored-byte faults (flip/torn/zeroed sector/misdirected sector) applied before the build. " +
 			"non-trivial = at least one repetition permuted a map site that saw >= 2 keys, or ran in a fresh process; distinct = distinct (project hash, set of permuted sites with >= 2 keys, fresh?) triples",
 		components: stdComponents,
@@ -263,12 +263,11 @@ func observe(c *Case, e Env, seed uint64) (text string, permuted []string) {
 		for _, s := range e.MapSites {
 			only[s] = true
 		}
-		for s := range simrt.MapSiteVisits {
+		for _, s := range simrt.MapSitesVisited() {
 			if e.MapSites == nil || only[s] {
 				permuted = append(permuted, s)
 			}
 		}
-		sortStrings(permuted)
 	}
 	simrt.CountMapVisits(false)
 	canonicalEnv()
@@ -463,7 +462,7 @@ func (c06Engine) Exec(c *Case, job *Job) *Result {
 			case rep.Env.MapMode == 0 && rep.Env.Prior > 0:
 				what = "prior-history"
 			case rep.Env.MapMode == 0:
-				what = "pool-or-ambient"
+				what = "pool-ambient-or-internal-goroutine-schedule"
 			}
 			if rep.Env.Prior > 0 && !rep.Env.Fresh && rep.Env.MapMode != 0 && rep.Env.Conc == 0 {
 				// is the prior history alone responsible? same environment without the prior builds
@@ -471,6 +470,17 @@ func (c06Engine) Exec(c *Case, job *Job) *Result {
 				e2.Prior = 0
 				if t2, _ := observe(c, e2, c.Seed+uint64(i+1)); t2 == ref {
 					what = "prior-history"
+					rep.Env.MapMode = 0
+				}
+			}
+			if rep.Env.MapMode != 0 && !rep.Env.Fresh && rep.Env.Conc == 0 && rep.Env.Repeat <= 1 && what == "map-order" {
+				// does it differ even under the canonical map order? then the map order is not the cause:
+				// what is left is the ambient seed, i.e. clock/rand/pid answers and the interleaving of
+				// goroutines the code under test starts itself
+				e0 := rep.Env
+				e0.MapMode, e0.MapSites, e0.Prior = 0, nil, 0
+				if t0, _ := observe(c, e0, c.Seed+uint64(i+1)); t0 != ref {
+					what = "ambient-or-internal-goroutine-schedule"
 					rep.Env.MapMode = 0
 				}
 			}
